@@ -139,4 +139,10 @@ theorem orderMonitor_none_iff (waits : List (List Nat)) (ivs : List Interval) :
     have := h x hx j hj
     simpa using this
 
+theorem failMonitor_none_iff (waits : List (List Nat)) (fails : List Bool) (ivs : List Interval) :
+    failMonitor waits fails ivs = none ↔
+      ∀ x ∈ ivs, ∀ j ∈ waits.getD x.holder [], fails.getD j false = false := by
+  simp only [failMonitor, List.findSome?_eq_none_iff, Option.map_eq_none_iff, List.find?_eq_none,
+    Bool.not_eq_true]
+
 end Goat.MutexTasks
